@@ -338,3 +338,48 @@ class RuleAlias:
 
     def unresolved_item(self, rule, *a, **k):
         return self._rep.unresolved_item(self._r(rule), *a, **k)
+
+
+def positional_self_calls(ci, fi):
+    """FuncInfo copy of method `fi` of class `ci` in which every call `self.<method>(..., name=value, ...)` of a method of the class is written
+    with positional arguments only (keywords moved to the position of their parameter, skipped parameters filled with the callee's default
+    expressions).  Rules that read such calls by position then do not depend on how the arguments were spelled.  The original when nothing
+    changes."""
+    import ast as _ast
+    import copy
+    node = copy.deepcopy(fi.node)
+    changed = False
+    for c in _ast.walk(node):
+        if not (isinstance(c, _ast.Call) and c.keywords and all(k.arg for k in c.keywords) and isinstance(c.func, _ast.Attribute)
+                and isinstance(c.func.value, _ast.Name) and c.func.value.id == 'self' and c.func.attr in ci.methods):
+            continue
+        callee = ci.methods[c.func.attr]
+        params = callee.params[1:]
+        dflt = dict(zip(params[len(params) - len(callee.node.args.defaults):], callee.node.args.defaults))
+        kw = {k.arg: k.value for k in c.keywords}
+        if not set(kw) <= set(params):
+            continue
+        args = list(c.args)
+        last = max(params.index(k) for k in kw)
+        ok = True
+        for p_ in params[len(args):last + 1]:
+            if p_ in kw:
+                args.append(kw[p_])
+            elif p_ in dflt:
+                args.append(copy.deepcopy(dflt[p_]))
+            else:
+                ok = False
+                break
+        if ok:
+            c.args, c.keywords = args, []
+            changed = True
+    if not changed:
+        return fi
+    _ast.fix_missing_locations(node)
+    g = copy.copy(fi)
+    g.node = node
+    for parent in _ast.walk(node):
+        for ch in _ast.iter_child_nodes(parent):
+            fi.module.parents[ch] = parent
+    fi.module.parents[node] = fi.module.parents.get(fi.node)
+    return g
